@@ -410,11 +410,56 @@ def check_invalid(res, s):
     add_violation(res, "invalid:accepted", case, "SigmaError", repr(item.value))
 
 
+def spellings():
+    """valid values that are not written in normalised form -> the normalised network"""
+    out = []
+    for a in ("10.1.2.3", "0.0.0.0", "255.255.255.255"):
+        out.append(a)  # no prefix length: a /32
+    for plen in range(0, 33):
+        net = ipaddress.ip_network((int(ipaddress.IPv4Address("10.171.205.239")) >> (32 - plen) << (32 - plen) if plen else 0, plen))
+        out.append(f"{net.network_address}/{net.netmask}")
+        out.append(f"{net.network_address}/{net.hostmask}")
+    for txt in ("1234:5678:0000:AB00:0:0:0:0/56", "FE80::/10", "fe80:0000:0000:0000:0000:0000:0000:0000/64", "fe80::1", "0:0:0:0:0:0:0:0/0", "::ffff:10.0.0.0/104",
+                "2001:DB8:0:0:1::/80", "2001:db8::0:1:0:0/96"):
+        out.append(txt)
+    return out
+
+
+def check_spelling(res, txt):
+    from sigma.exceptions import SigmaError
+
+    case = {"kind": "spelling", "cidr": txt}
+    res["evaluations"] += 1
+    try:
+        net = ipaddress.ip_network(txt)
+    except ValueError:
+        return
+    norm = str(net)
+    bits = 32 if net.version == 4 else 128
+    try:
+        nq = impl_convert(txt, "native")
+        same = impl_convert(norm, "native")
+        pats, npats = impl_expand(txt), impl_expand(norm)
+    except SigmaError as e:
+        res["outcomes"].add(h64("rejected"))
+        return  # rejecting an unusual spelling is permitted; accepting it with other content is not
+    except Exception as e:
+        add_violation(res, "spelling:non-sigma-exception:" + type(e).__name__, case, "query or SigmaError", repr(e))
+        return
+    res["nontrivial"].add(h64(txt))
+    res["outcomes"].add(h64(["spelling", norm == txt]))
+    exp = f"CIDR<fld|{norm}|{net.network_address}|{net.prefixlen}|{net.netmask}>"
+    if nq != [exp] or same != [exp]:
+        add_violation(res, "spelling:native-template-fields-not-normalised", case, exp, {"given": nq, "normalised": same})
+    if sorted(pats) != sorted(npats):
+        add_violation(res, "spelling:expansion-differs-from-normalised-network", case, npats[:6], pats[:6])
+
+
 # ---------------------------------------------------------------------------------------------
 
 
 def plan(tier, seed):
-    shards = [("v4", p) for p in range(33)] + [("v6", p) for p in range(129)] + [("invalid", 0)]
+    shards = [("v4", p) for p in range(33)] + [("v6", p) for p in range(129)] + [("invalid", 0), ("spelling", 0)]
     return shards
 
 
@@ -429,6 +474,9 @@ def run_shard(shard, tier, seed):
     elif kind == "v6":
         for p, n in v6_networks(tier, [plen]):
             check_v6(res, p, n)
+    elif kind == "spelling":
+        for s in spellings():
+            check_spelling(res, s)
     else:
         for s in INVALID:
             check_invalid(res, s)
@@ -439,6 +487,8 @@ def replay(case):
     res = new_result()
     if case["kind"] == "invalid":
         check_invalid(res, case["cidr"])
+    elif case["kind"] == "spelling":
+        check_spelling(res, case["cidr"])
     else:
         net = ipaddress.ip_network(case["cidr"])
         if case["kind"] == "v4":
